@@ -22,27 +22,28 @@ func (r Result) String() string { return [...]string{"unsat", "sat", "unknown"}[
 
 // Backend describes one solver command line.
 type Backend struct {
-	Name string
-	Argv []string
+	Name      string
+	TimeoutMs int
+	Argv      []string
 	// option lines sent after start / reset
 	Prelude []string
 }
 
 func BackendZ3(timeoutMs int) Backend {
-	return Backend{Name: "z3", Argv: []string{"z3", "-in"},
+	return Backend{Name: "z3", TimeoutMs: timeoutMs, Argv: []string{"z3", "-in"},
 		Prelude: []string{fmt.Sprintf("(set-option :timeout %d)", timeoutMs), "(set-option :global-declarations true)"}}
 }
 func BackendZ3New(timeoutMs int) Backend {
-	return Backend{Name: "z3-new", Argv: []string{"z3-new", "-in"},
+	return Backend{Name: "z3-new", TimeoutMs: timeoutMs, Argv: []string{"z3-new", "-in"},
 		Prelude: []string{fmt.Sprintf("(set-option :timeout %d)", timeoutMs), "(set-option :global-declarations true)"}}
 }
 func BackendCvc5Int(timeoutMs int) Backend {
-	return Backend{Name: "cvc5-bv-as-int", Argv: []string{"cvc5", "--incremental", "--solve-bv-as-int=sum", "--produce-models",
+	return Backend{Name: "cvc5-bv-as-int", TimeoutMs: timeoutMs, Argv: []string{"cvc5", "--incremental", "--solve-bv-as-int=sum", "--produce-models",
 		fmt.Sprintf("--tlimit-per=%d", timeoutMs), "--lang=smt2"},
 		Prelude: []string{"(set-option :global-declarations true)", "(set-logic ALL)"}}
 }
 func BackendCvc5(timeoutMs int) Backend {
-	return Backend{Name: "cvc5", Argv: []string{"cvc5", "--incremental", "--produce-models",
+	return Backend{Name: "cvc5", TimeoutMs: timeoutMs, Argv: []string{"cvc5", "--incremental", "--produce-models",
 		fmt.Sprintf("--tlimit-per=%d", timeoutMs), "--lang=smt2"},
 		Prelude: []string{"(set-logic ALL)"}}
 }
@@ -62,6 +63,7 @@ type Solver struct {
 	Errors   int
 	Time     time.Duration
 	Restarts int
+	Watchdog int
 	Log      io.Writer // optional transcript
 	dead     bool
 }
@@ -221,10 +223,15 @@ func (s *Solver) Check() Result {
 		return Unknown
 	}
 	sawErr := false
+	// watchdog: a solver that ignores its own time limit is killed (=> Unknown, restarted on next use)
+	proc := s.cmd.Process
+	wd := time.AfterFunc(time.Duration(s.B.TimeoutMs)*time.Millisecond*3/2+2*time.Second, func() { proc.Kill() })
+	defer wd.Stop()
 	for {
 		line, err := s.out.ReadString('\n')
 		if err != nil {
 			s.dead = true
+			s.Watchdog++
 			s.Time += time.Since(start)
 			return Unknown
 		}
